@@ -38,6 +38,8 @@ pub fn run(ctx: &Ctx, out: &mut CaseOut) {
         let n = 1 + r.below(6);
         (w.text.clone(), w.goals.iter().take(n).map(|g| g.0.clone()).collect(), format!("generated:{}", w.fragment))
     };
+    let print_between = ctx.k % 2 == 0;
+    out.count(if print_between { "history:printed-after-every-goal" } else { "history:printed-once-at-the-end" });
     let kind = if origin.starts_with("generated:") { origin.clone() } else { "corpus".to_string() };
     for choice in both() {
         let l = match load(&text, choice, false) {
@@ -73,7 +75,19 @@ pub fn run(ctx: &Ctx, out: &mut CaseOut) {
                     let peeled = goal.into_peeled_goal(chalk_integration::interner::ChalkIr);
                     fdb.calls.set(0);
                     fdb.arm();
-                    catch_unwind(AssertUnwindSafe(|| disp(&s.solve(&wrapped, &peeled)))).ok()
+                    let a = catch_unwind(AssertUnwindSafe(|| disp(&s.solve(&wrapped, &peeled)))).ok();
+                    if print_between {
+                        // a client may print the recorded program at any time, not only at the end
+                        fdb.deadline.set(None);
+                        fdb.calls.set(0);
+                        fdb.budget.set(u64::MAX);
+                        // (what the printer itself asks the database is not "served to the solver")
+                        let snap = fdb.served.borrow().clone();
+                        let _ = catch_unwind(AssertUnwindSafe(|| wrapped.to_string()));
+                        *fdb.served.borrow_mut() = snap;
+                        fdb.budget.set(300_000);
+                    }
+                    a
                 })
                 .collect()
         });
